@@ -247,6 +247,11 @@ impl FixtureDatabase {
         info!("Total files with fixture usages: {}", self.usages.len());
     }
 
+    /// Whether the file has been analyzed (its cached text may have been evicted since).
+    fn is_analyzed(&self, path: &Path) -> bool {
+        self.file_cache.contains_key(path) || self.imports.contains_key(path)
+    }
+
     /// Scan Python modules that are imported by conftest.py files.
     /// This discovers fixtures defined in separate modules that are re-exported via star imports.
     /// Handles transitive imports (A imports B, B imports C) by iteratively scanning until no new modules are found.
@@ -268,8 +273,11 @@ impl FixtureDatabase {
             .iter()
             .map(|e| e.source_root.clone())
             .collect();
+        // Every analyzed file has an entry in `imports`; `file_cache` may already have evicted
+        // some of them (workspaces larger than the cache) and must not decide whose imports
+        // are followed.
         let mut files_to_check: Vec<std::path::PathBuf> = self
-            .file_cache
+            .imports
             .iter()
             .filter(|entry| {
                 let key = entry.key();
@@ -362,7 +370,7 @@ impl FixtureDatabase {
                                 self.plugin_fixture_files.insert(canonical.clone(), ());
                                 // If already cached, we need to re-analyze so
                                 // existing definitions get is_plugin=true.
-                                if self.file_cache.contains_key(&canonical) {
+                                if self.is_analyzed(&canonical) {
                                     reanalyze_as_plugin.insert(canonical.clone());
                                 }
                                 // Its own imports were followed as a non-plugin's if it was
@@ -373,7 +381,7 @@ impl FixtureDatabase {
                             }
 
                             if !processed_files.contains(&canonical)
-                                && !self.file_cache.contains_key(&canonical)
+                                && !self.is_analyzed(&canonical)
                             {
                                 new_modules.insert(canonical);
                             }
@@ -398,7 +406,7 @@ impl FixtureDatabase {
                                 self.plugin_fixture_files.insert(canonical.clone(), ());
                                 // If already cached, we need to re-analyze so
                                 // existing definitions get is_plugin=true.
-                                if self.file_cache.contains_key(&canonical) {
+                                if self.is_analyzed(&canonical) {
                                     reanalyze_as_plugin.insert(canonical.clone());
                                 }
                                 if processed_files.remove(&canonical) {
@@ -407,7 +415,7 @@ impl FixtureDatabase {
                             }
 
                             if !processed_files.contains(&canonical)
-                                && !self.file_cache.contains_key(&canonical)
+                                && !self.is_analyzed(&canonical)
                             {
                                 new_modules.insert(canonical);
                             }
